@@ -51,6 +51,9 @@ func (u *Unit) syncCall(st *State, call *ast.CallExpr, fn *types.Func, sel *ast.
 		default:
 			u.abstract("sync.%s.%s not modelled", rn, fn.Name())
 		}
+		if len(u.frames) == 1 {
+			u.runAnchorsNamed(st, "after:"+fn.Name(), call.Pos(), nil)
+		}
 		return &syncResult{}
 	case "sync.Once":
 		if fn.Name() != "Do" {
@@ -148,41 +151,63 @@ func (u *Unit) checkLockBalance(st *State, pos token.Pos) {
 	}
 }
 
-// guardFor returns the guard declaration protecting struct type t, if any.
-func (u *Unit) guardFor(t types.Type) *Guard {
-	if p, ok := t.Underlying().(*types.Pointer); ok {
-		t = p.Elem()
+// Guards are declared per allocated struct type with field paths relative to it:
+//   guard T: f1, f2 by mu inv I(self)          guard SwapWriteStore: SwapStore.s by SwapStore.mu
+
+// pathType returns the type found by following a dotted field path from struct type t.
+func pathType(t types.Type, path string) types.Type {
+	for _, name := range strings.Split(path, ".") {
+		st, ok := t.Underlying().(*types.Struct)
+		if !ok {
+			return nil
+		}
+		var next types.Type
+		for i := 0; i < st.NumFields(); i++ {
+			if st.Field(i).Name() == name {
+				next = st.Field(i).Type()
+			}
+		}
+		if next == nil {
+			return nil
+		}
+		t = next
 	}
-	return u.eng.guards[typeKey(t)]
+	return t
+}
+
+func (u *Unit) guardOf(mu LV) *Guard {
+	if mu.kind != lvHeap {
+		return nil
+	}
+	g := u.eng.guards[mu.keyT]
+	if g == nil || g.Mutex != mu.prefix {
+		return nil
+	}
+	return g
 }
 
 // acquireGuard: on Lock, the guarded fields take unknown values satisfying the lock invariant
 // (other goroutines may have changed them while the lock was free).
 func (u *Unit) acquireGuard(st *State, sel *ast.SelectorExpr, mu LV, pos token.Pos) {
-	if mu.kind != lvHeap {
-		return
-	}
-	g := u.eng.guards[mu.keyT]
+	g := u.guardOf(mu)
 	if g == nil {
 		return
 	}
-	owner := u.ownerValue(mu)
-	stt, ok := owner.T.Underlying().(*types.Pointer).Elem().Underlying().(*types.Struct)
-	if !ok {
-		return
-	}
+	t := u.eng.lookupNamed(mu.keyT)
 	for _, f := range g.Fields {
-		for i := 0; i < stt.NumFields(); i++ {
-			if stt.Field(i).Name() == f {
-				flv := u.derefLV(mu.ref, owner.T.Underlying().(*types.Pointer).Elem()).field(stt, i)
-				u.store(st, flv, u.freshValue(st, "locked_"+f, flv.T))
-				u.havocReachable(st, flv.T)
-			}
+		ft := pathType(t, f)
+		if ft == nil {
+			panic(engineError(fmt.Sprintf("guard %s: no field %s", g.Type, f)))
 		}
+		flv := LV{kind: lvHeap, keyT: mu.keyT, ref: mu.ref, prefix: f, T: ft}
+		nv := u.freshValue(st, "locked_"+strings.ReplaceAll(f, ".", "_"), ft)
+		u.refFacts(st, nv, st.clock)
+		u.store(st, flv, nv)
+		u.havocReachable(st, ft)
 	}
 	if g.InvExp != nil {
 		c := &Clause{Text: g.Inv, File: g.File, Line: g.Line}
-		env := map[string]Value{"self": owner}
+		env := map[string]Value{"self": scalar(types.NewPointer(t), mu.ref)}
 		st.assume(u.specBoolAt(st, u.old, env, g.InvExp, c, token.NoPos))
 	}
 }
@@ -200,25 +225,15 @@ func (u *Unit) havocReachable(st *State, t types.Type) {
 }
 
 func (u *Unit) releaseGuard(st *State, sel *ast.SelectorExpr, mu LV, pos token.Pos) {
-	if mu.kind != lvHeap {
-		return
-	}
-	g := u.eng.guards[mu.keyT]
+	g := u.guardOf(mu)
 	if g == nil || g.InvExp == nil {
 		return
 	}
-	owner := u.ownerValue(mu)
-	c := &Clause{Text: g.Inv, File: g.File, Line: g.Line}
-	env := map[string]Value{"self": owner}
-	t := u.specBoolAt(st, u.old, env, g.InvExp, c, token.NoPos)
-	// only a writer must re-establish the invariant; a reader cannot have broken it
-	u.oblige(st, "lockinv@"+exprText(sel.X), "lockinv", nil, t, pos, g.Inv)
-}
-
-func (u *Unit) ownerValue(mu LV) Value {
-	// the struct that contains the mutex: pointer value (ref) with the struct's named type
 	t := u.eng.lookupNamed(mu.keyT)
-	return scalar(types.NewPointer(t), mu.ref)
+	c := &Clause{Text: g.Inv, File: g.File, Line: g.Line}
+	env := map[string]Value{"self": scalar(types.NewPointer(t), mu.ref)}
+	goal := u.specBoolAt(st, u.old, env, g.InvExp, c, token.NoPos)
+	u.oblige(st, "lockinv@"+exprText(sel.X), "lockinv", nil, goal, pos, g.Inv)
 }
 
 func (e *Engine) lookupNamed(key string) types.Type {
@@ -233,9 +248,10 @@ func (e *Engine) lookupNamed(key string) types.Type {
 	panic(engineError("unknown guarded type " + key))
 }
 
-// checkGuardedAccess: reading or writing a guarded field requires holding the mutex.
-func (u *Unit) checkGuardedAccess(st *State, lv LV, field string, write bool, e ast.Expr) {
-	if lv.kind != lvHeap {
+// checkGuardedAccess: reading or writing a guarded field requires holding the mutex
+// (the write lock for writes).
+func (u *Unit) checkGuardedAccess(st *State, lv LV, write bool, e ast.Expr) {
+	if lv.kind != lvHeap || len(u.frames) == 0 {
 		return
 	}
 	g := u.eng.guards[lv.keyT]
@@ -244,7 +260,7 @@ func (u *Unit) checkGuardedAccess(st *State, lv LV, field string, write bool, e 
 	}
 	guarded := false
 	for _, f := range g.Fields {
-		if f == field {
+		if lv.prefix == f || strings.HasPrefix(lv.prefix, f+".") {
 			guarded = true
 		}
 	}
@@ -252,21 +268,17 @@ func (u *Unit) checkGuardedAccess(st *State, lv LV, field string, write bool, e 
 		return
 	}
 	t := u.eng.lookupNamed(lv.keyT)
-	stt := t.Underlying().(*types.Struct)
-	for i := 0; i < stt.NumFields(); i++ {
-		f := stt.Field(i)
-		match := f.Name() == g.Mutex || (g.Mutex == "" && f.Embedded() && strings.HasSuffix(typeKey(f.Type()), "Mutex"))
-		if !match {
-			continue
-		}
-		mlv := u.derefLV(lv.ref, t).field(stt, i)
-		held := u.load(st, mlv).term()
-		goal := Ne(held, IntLit(0))
-		if write {
-			goal = Eq(held, IntLit(1))
-		}
-		u.oblige(st, fmt.Sprintf("guard@%s.%s", lv.keyT, field), "guard", nil, goal, e.Pos(), "guarded field accessed with the lock held")
+	mt := pathType(t, g.Mutex)
+	if mt == nil {
+		panic(engineError(fmt.Sprintf("guard %s: no mutex field %s", g.Type, g.Mutex)))
 	}
+	mlv := LV{kind: lvHeap, keyT: lv.keyT, ref: lv.ref, prefix: g.Mutex, T: mt}
+	held := u.load(st, mlv).term()
+	goal := Ne(held, IntLit(0))
+	if write {
+		goal = Eq(held, IntLit(1))
+	}
+	u.oblige(st, fmt.Sprintf("guard@%s.%s", lv.keyT, lv.prefix), "guard", nil, goal, e.Pos(), "guarded field accessed with the lock held")
 }
 
 func (u *Unit) lockMods(sel *ast.SelectorExpr, m *modSet) {
@@ -281,9 +293,7 @@ func (u *Unit) lockMods(sel *ast.SelectorExpr, m *modSet) {
 			if p, ok := bt.Underlying().(*types.Pointer); ok {
 				m.keys = append(m.keys, "F:"+typeKey(p.Elem())+":"+inner.Sel.Name)
 				if g := u.eng.guards[typeKey(p.Elem())]; g != nil {
-					for _, f := range g.Fields {
-						m.keys = append(m.keys, "F:"+typeKey(p.Elem())+":"+f)
-					}
+					m.keys = append(m.keys, "F:"+typeKey(p.Elem())+":")
 					m.keys = append(m.keys, "M:", "MV:", "MD:")
 				}
 				return
@@ -332,7 +342,11 @@ func (u *Unit) libraryModel(st *State, cs *callSite) ([]Value, bool) {
 	case "errors.As", "github.com/pkg/errors.As":
 		mark()
 		// target is &x with x of a concrete error type
-		pt, ok := cs.args[1].T.Underlying().(*types.Pointer)
+		at := u.typeOf(cs.call.Args[1])
+		if at == nil {
+			break
+		}
+		pt, ok := at.Underlying().(*types.Pointer)
 		if !ok {
 			break
 		}
@@ -343,6 +357,13 @@ func (u *Unit) libraryModel(st *State, cs *callSite) ([]Value, bool) {
 		e0 := cs.args[0].term()
 		e1 := u.unwrap(e0)
 		e2 := u.unwrap(e1)
+		// error types of the repository that have no Unwrap method end the chain
+		for _, nt := range u.eng.leafErrorTypes() {
+			tg := IntLit(int64(u.eng.typeTag(nt)))
+			for _, e := range []Term{e0, e1} {
+				st.assume(Imp(Eq(u.dyntype(e), tg), Eq(u.unwrap(e), IntLit(0))))
+			}
+		}
 		m0 := And(Ne(e0, IntLit(0)), Eq(u.dyntype(e0), tag))
 		m1 := And(Ne(e0, IntLit(0)), Ne(e1, IntLit(0)), Eq(u.dyntype(e1), tag))
 		m2 := And(Ne(e0, IntLit(0)), Ne(e1, IntLit(0)), Ne(e2, IntLit(0)), Eq(u.dyntype(e2), tag))
@@ -477,4 +498,31 @@ func (u *Unit) sortSearch(st *State, cs *callSite) Value {
 	st.assume(Forall([]Term{j}, Imp(And(Le(IntLit(0), j), Lt(j, r)), Not(pred(st, j)))))
 	st.assume(Forall([]Term{j}, Imp(And(Le(r, j), Lt(j, n)), pred(st, j))))
 	return intV(r)
+}
+
+// leafErrorTypes: named types of the repository packages with an Error method and no Unwrap.
+func (e *Engine) leafErrorTypes() []types.Type {
+	if e.leafErrs != nil {
+		return e.leafErrs
+	}
+	for _, p := range e.pkgs {
+		sc := p.Types.Scope()
+		for _, name := range sc.Names() {
+			tn, ok := sc.Lookup(name).(*types.TypeName)
+			if !ok {
+				continue
+			}
+			t := tn.Type()
+			if _, isIface := t.Underlying().(*types.Interface); isIface {
+				continue
+			}
+			for _, cand := range []types.Type{t, types.NewPointer(t)} {
+				ms := types.NewMethodSet(cand)
+				if ms.Lookup(p.Types, "Error") != nil && ms.Lookup(p.Types, "Unwrap") == nil && ms.Lookup(p.Types, "Cause") == nil {
+					e.leafErrs = append(e.leafErrs, cand)
+				}
+			}
+		}
+	}
+	return e.leafErrs
 }
